@@ -190,34 +190,38 @@ func c05r3(c *core.Ctx) {
 		got[name] = l
 		for _, fld := range []string{"encryptKey", "decryptKey"} {
 			n := 0
-			core.Instrs(f, func(i ssa.Instruction) {
-				st, ok := i.(*ssa.Store)
-				if !ok {
-					return
-				}
-				if _, ok := core.FieldAddrOf(st.Addr, tSecure, fld); !ok {
-					return
-				}
-				n++
-				for _, src := range core.Sources(st.Val) {
-					call := core.CallResult(src, 0, func(ci ssa.Instruction) bool { return core.IsCall(ci, qHKDF) })
-					if call == nil {
-						continue
+			for _, b := range bodies(f) {
+				b := b
+				core.Instrs(b.fn, func(i ssa.Instruction) {
+					st, ok := i.(*ssa.Store)
+					if !ok {
+						return
 					}
-					a := core.Args(call)
-					salt, _ := constBytes(a[1])
-					info, _ := constBytes(a[2])
-					l.salt = salt
-					if fld == "encryptKey" {
-						l.enc = info
-					} else {
-						l.dec = info
+					if _, ok := core.FieldAddrOf(st.Addr, tSecure, fld); !ok {
+						return
 					}
-					// master must be the shared key parameter
-					fromParam := core.AnySource(a[0], func(sv ssa.Value) bool { _, ok := sv.(*ssa.Parameter); return ok }) || allocFromParam(a[0], f)
-					c.Check(fromParam, "master:"+fld+"@"+fname(f), posOf(call), "derived from the shared key parameter", "the "+fld+" is not derived from the shared key passed in")
-				}
-			})
+					n++
+					for _, src := range core.Sources(st.Val) {
+						call := core.CallResult(src, 0, func(ci ssa.Instruction) bool { return core.IsCall(ci, qHKDF) })
+						if call == nil {
+							continue
+						}
+						a := core.Args(call)
+						salt, _ := constBytes(b.lift(a[1]))
+						info, _ := constBytes(b.lift(a[2]))
+						l.salt = salt
+						if fld == "encryptKey" {
+							l.enc = info
+						} else {
+							l.dec = info
+						}
+						// master must be the shared key parameter
+						m := b.lift(a[0])
+						fromParam := core.AnySource(m, func(sv ssa.Value) bool { pr, ok := sv.(*ssa.Parameter); return ok && pr.Parent() == f }) || allocFromParam(m, f)
+						c.Check(fromParam, "master:"+fld+"@"+fname(f), posOf(call), "derived from the shared key parameter", "the "+fld+" is not derived from the shared key passed in")
+					}
+				})
+			}
 			if n == 0 {
 				c.Bad("derive:"+fld+"@"+fname(f), f.Pos(), "the constructor does not set "+fld)
 			}
